@@ -221,16 +221,63 @@ def check_end_pointers(idx: Index, rep: Report) -> None:
                 etxts = {canon(t + "." + fld) for t in cx.texts(e.value, at)}
             else:
                 etxts = cx.texts(e, at)
-            link_reads = {t for t in etxts if t.endswith('.' + fld)}
+            link_reads = {t for t in etxts if t.endswith('.' + fld) or t.endswith('.' + fld.lstrip('_'))}
             if not link_reads:
                 continue  # a parameter / fresh node / self: never None
             facts = cx.fact_texts(st)
             if any(f"{t} is not None" in facts for t in etxts):
                 continue
+            # path-sensitive refinement: a local that captured the link read and is tested / re-bound on the None
+            # branch (`p = t.prev; if p is None: p = first ...`) reaches this statement only through the not-None edge
+            if isinstance(e, ast.Name):
+                from ..astutil import conjuncts
+
+                nm = e.id
+                alld = {cfg.node_of(n_) for n_ in walk_local(f.node) if isinstance(n_, (ast.Assign, ast.AnnAssign)) and any(isinstance(t_, ast.Name) and t_.id == nm for t_ in (n_.targets if isinstance(n_, ast.Assign) else [n_.target]))}
+
+                def est(n_: int, m_: int, lab, nm=nm) -> bool:
+                    a_ = cfg.nodes[n_].ast
+                    if a_ is None or lab not in ("T", "F") or not isinstance(a_, ast.expr):
+                        return False
+                    for atom, truth in conjuncts(a_, lab == "T"):
+                        if isinstance(atom, ast.Compare) and len(atom.ops) == 1 and isinstance(atom.comparators[0], ast.Constant) and atom.comparators[0].value is None and isinstance(atom.left, ast.Name) and atom.left.id == nm:
+                            if (isinstance(atom.ops[0], ast.IsNot) and truth) or (isinstance(atom.ops[0], ast.Is) and not truth):
+                                return True
+                    return False
+
+                may_none = False
+                for nid, v in reaching_defs(cfg, nm, at):
+                    if v is None:
+                        continue
+                    vt = canon(resolved_text(cfg, v, nid))
+                    if not (vt.endswith('.' + fld) or vt.endswith('.' + fld.lstrip('_'))):
+                        continue
+                    others = alld - {nid}
+                    if cfg.path_avoiding(nid, at, lambda x: x.id in others, follow_exc=False, edge_ok=lambda a_, b_, lab: not est(a_, b_, lab)) is not None:
+                        may_none = True
+                if not may_none:
+                    continue
             # the link read before this statement may have been captured in a local that is tested
             ntx = cx.texts(node, at)
             endf = END_OF[fld]
-            ok = any(ef == endf and (cx.texts(ev, cfg.node_of(es)) & ntx) for es, ef, ev in end_stores)
+            # the end store must name the node of the *same* binding (same loop iteration) as the link store: some
+            # path between the two statements does not pass a re-assignment of the node variable
+            redefs = set()
+            if isinstance(node, ast.Name):
+                for n_ in walk_local(f.node):
+                    if isinstance(n_, (ast.Assign, ast.AnnAssign)) and any(isinstance(t_, ast.Name) and t_.id == node.id for t_ in (n_.targets if isinstance(n_, ast.Assign) else [n_.target])):
+                        redefs.add(cfg.node_of(n_))
+                    if isinstance(n_, ast.For) and any(isinstance(t_, ast.Name) and t_.id == node.id for t_ in ast.walk(n_.target)):
+                        redefs.add(cfg.node_of(n_))
+
+            def same_binding(es) -> bool:
+                en = cfg.node_of(es)
+                if en == at or not redefs:
+                    return True
+                av = lambda x: x.id in redefs
+                return cfg.path_avoiding(at, en, av, follow_exc=False) is not None or cfg.path_avoiding(en, at, av, follow_exc=False) is not None
+
+            ok = any(ef == endf and (cx.texts(ev, cfg.node_of(es)) & ntx) and same_binding(es) for es, ef, ev in end_stores)
             inst = f"{f.fq}:{canon(unparse(node))}.{fld}"
             if ok:
                 r.ok(inst, f"{f.module.relpath}:{st.lineno} `{unparse(st)[:60]}`: {endf} is updated to the linked node")
